@@ -296,7 +296,7 @@ func parsePat(s string) (p pattern.Pattern, err error, pnc string) {
 }
 
 func entryKinds(p pattern.Pattern) []string {
-	var ks []string
+	ks := []string{}
 	for _, n := range p.EntryNodes {
 		ks = append(ks, kindOf(n))
 	}
@@ -344,6 +344,23 @@ func probeTables() map[string]*probeResult {
 			continue
 		}
 		r.Entry = entryKinds(p)
+	}
+	// branches of collectEntryNodes that have no node name of their own
+	for name, probe := range map[string]string{
+		"probe:nil":    `(Binding "x" nil)`, // case Nil, nil  => allTypes
+		"probe:not":    `(Not (Ident _))`,   // case Not
+		"probe:string": `(Or "x")`,          // nodeToASTTypes[String]
+	} {
+		r := &probeResult{Known: true, Arity: -1, Probe: probe}
+		res[name] = r
+		p, err, pnc := parsePat(probe)
+		if pnc != "" {
+			r.Panic = pnc
+		} else if err != nil {
+			r.Err = err.Error()
+		} else {
+			r.Entry = entryKinds(p)
+		}
 	}
 	return res
 }
